@@ -212,8 +212,22 @@ Definition rx_complete_other_stmt : Prop :=
   forall gf r f0 cs i t g, gf_ok gf -> holds_run r f0 cs i t -> rx_fast (n_pgn (rn r)) (fpgn f0) = true ->
     ~ touches_key f0 g -> has_elapsed t c_Max_N2kMsgBuf_Time (now32 r) = false ->
     holds_run (fst (rx_iter gf r g)) f0 cs i t.
-(* (d) everything else the node does between frames (sends, flushes, heartbeat, claims, ticks) keeps the table: see rx_no_corruption's
-       frame lemmas; stated here for the poll around the loop *)
+(* (d) everything else the node does between frames keeps the table: every operation other than ParseMessages (frame into the driver queue,
+       tick, application send, flush, claim, heartbeat setting) leaves the slots alone, and ParseMessages on an open node is the loop
+       rx_loop over at most 20 frames, preceded and followed by steps that leave slots, queue, configuration and clock alone.  With
+       (a)-(c) this gives completeness across polls: the run survives as long as its slot is younger than 100 ms whenever other traffic
+       needs a place. *)
+Definition rx_table_kept_stmt : Prop :=
+  forall gf r o, gf_ok gf -> o <> RPoll ->
+    r_slots (fst (rstep gf r o)) = r_slots r /\ n_pgn (rn (fst (rstep gf r o))) = n_pgn (rn r) /\
+    c_only_known (r_cfg (fst (rstep gf r o))) = c_only_known (r_cfg r) /\ fp_dlv (snd (rstep gf r o)) = [].
+Definition poll_is_loop_stmt : Prop :=
+  forall gf r, gf_ok gf -> n_open (rn r) = 3 ->
+    exists ra, r_slots ra = r_slots r /\ r_q ra = r_q r /\ n_pgn (rn ra) = n_pgn (rn r) /\ c_only_known (r_cfg ra) = c_only_known (r_cfg r) /\
+      n_now (rn ra) = n_now (rn r) /\
+      r_slots (fst (poll gf r)) = r_slots (fst (rx_loop gf (Z.to_nat c_MaxReadFramesOnParse) ra)) /\
+      r_q (fst (poll gf r)) = r_q (fst (rx_loop gf (Z.to_nat c_MaxReadFramesOnParse) ra)) /\
+      fp_dlv (snd (poll gf r)) = fp_dlv (snd (rx_loop gf (Z.to_nat c_MaxReadFramesOnParse) ra)).
 
 (* one ParseMessages loop over a queue in which the frames of a complete run are interleaved with other traffic: delivered.
    Hypotheses = sender discipline (no other frame of this PGN/source/destination in between) + a place at the first frame. *)
@@ -234,13 +248,24 @@ Definition rx_complete_poll_stmt : Prop :=
     snd (find_free_slot (with_rxq r q) (fpgn f0) (fsrc f0) (fdst f0) false) < nslots r ->
     In (run_msg f0 cs) (fp_dlv (snd (rx_loop gf k r))).
 
-(* the full form "as long as no more (PGN, source, destination) keys have an unfinished message than there are slots, every complete run
-   is delivered" is FALSE of the code (finding 'complete-stale'): a superseding first frame may be stored in a free slot below the
-   stale slot of its key, the stale slot keeps its place, and a third message finds the table full. *)
+(* The full form - "as long as no more (PGN, source, destination) keys are in use than there are slots, every run that arrives completely
+   and in order is delivered" - is FALSE of the code (finding 'complete-stale'): FindFreeCANMsgIndex takes the first slot that is free OR
+   has the key, so a superseding first frame may be stored in a free slot below the stale slot of its key; the stale slot keeps its place
+   (until it is 100 ms old and a frame needs a place), and a message of another sender finds the table full. *)
+Definition key_of (f:rxframe) : Z * Z * Z := (fpgn f, fsrc f, fdst f).
+Definition rx_complete_stmt : Prop :=      (* not provable: refuted by rx_complete_false *)
+  forall gf r pre f0 post cs (keys:list (Z * Z * Z)) k,
+    gf_ok gf -> rx_clean (with_rxq r []) -> r_q r = pre ++ f0 :: post ->
+    Z.of_nat (length keys) <= nslots r -> (forall f, In f (r_q r) -> In (key_of f) keys) ->
+    fast_first r f0 -> interleaved f0 cs post -> seq_ok (fbyte f0 0) cs f0 -> run_complete f0 cs = true ->
+    (forall cs', (length cs' < length cs)%nat -> cs' = firstn (length cs') cs -> run_complete f0 cs' = false) ->
+    (length (r_q r) <= k)%nat ->
+    In (run_msg f0 cs) (fp_dlv (snd (rx_loop gf k r))).
+Definition rx_complete_false_stmt : Prop := ~ rx_complete_stmt.
+(* the witness, spelled out: two senders, two slots, clean start, all frames in one poll *)
 Definition mkf (id:Z) (buf:list Z) : rxframe := {| r_id := id; r_len := 8; r_buf := buf |}.
 Definition rx_complete_refuted_stmt : Prop :=
   exists (r:rnode) (q:list rxframe) (x2:msg),
-    (* two senders, two slots, clean start, all frames in one poll *)
     rx_clean (with_rxq r []) /\ nslots r = 2 /\ r_q r = q /\
     (* at most two keys are ever involved *)
     (forall f, In f q -> (fpgn f, fsrc f) = (129029, 10) \/ (fpgn f, fsrc f) = (129540, 11)) /\
@@ -249,6 +274,10 @@ Definition rx_complete_refuted_stmt : Prop :=
         run_complete f0 [c1] = true /\ run_msg f0 [c1] = x2 /\ (forall g, In g mid -> ~ touches_key f0 g)) /\
     (* ... and is not delivered *)
     ~ In x2 (dlv_of (snd (rx_loop gf_none 20 r))).
+(* what IS true (rx_complete_partial): the four statements above - a place at the first frame (free slot, slot of the same key, or oldest
+   slot 100 ms old), sender discipline for the run's own key, and the run's slot younger than 100 ms whenever other traffic needs a place *)
+Definition rx_complete_partial_stmt : Prop :=
+  rx_complete_first_stmt /\ rx_complete_cont_stmt /\ rx_complete_other_stmt /\ rx_complete_poll_stmt.
 
 (* ================= 5. runs are sent messages ================= *)
 (* The justification above is about runs of the ARRIVAL stream.  What it adds for SENT messages: a sender emits, per PGN, messages
